@@ -728,10 +728,15 @@ func (m *Machine) schedule() {
 		return
 	}
 	sort.SliceStable(m.runq, func(i, j int) bool { return m.runq[i].id < m.runq[j].id })
+	// delay-bounded scheduling: by default the lowest-numbered runnable goroutine runs;
+	// while the budget lasts, every scheduling point offers the solver the choice of any
+	// other runnable goroutine (each deviation costs one unit)
 	k := 0
 	if len(m.runq) > 1 && m.preemptBudget > 0 {
-		m.preemptBudget--
 		k = m.Choose("sched", len(m.runq))
+		if k != 0 {
+			m.preemptBudget--
+		}
 	}
 	g := m.runq[k]
 	m.runq = append(m.runq[:k], m.runq[k+1:]...)
@@ -802,8 +807,8 @@ func (m *Machine) maybePreempt() {
 	if m.preemptBudget <= 0 || len(m.runq) == 0 {
 		return
 	}
-	m.preemptBudget--
 	if m.Choose("preempt", 2) == 1 {
+		m.preemptBudget--
 		m.yieldOthers()
 	}
 }
